@@ -6,7 +6,7 @@
   Outside the model, hence not claimed: real thread scheduling, clock jumps, hash collisions,
   /etc/localtime changing without its mtime changing.
 -/
-import Chrono.Proofs.LocalCacheL
+import Chrono.Proofs.LocalCacheHistL
 
 namespace Chrono.Props.C18
 open Chrono.M.LocalCache Chrono.Spec.LocalCache Chrono.Proofs.LocalCache Chrono.Extracted.LocalCache
@@ -57,18 +57,49 @@ theorem reuse_window (last now : Nat) :
     within_window last now = true ↔ last ≤ now ∧ now - last < ONE_SECOND :=
   within_window_iff last now
 
-/-- A change of TZ is honoured by every conversion made at least one second later, on every
-thread: in any history of a process started with TZ = `e0` at clock `k0` (no conversions before),
-of the form `p1 ++ [change] ++ p2` where `p2` changes TZ no more and lasts ≥ 1 s, a conversion made
-next on any thread `t` in either direction uses the zone demanded for the current value of TZ.
-Assumption: the hash is injective on the TZ values of the history. -/
+/-- **Every conversion uses the zone of a value TZ had within the last second.**  For every history
+`h` of a process started with TZ = `e0` at clock `k0` (any mixture of changes of TZ, waiting,
+conversions on any threads, threads starting) and a conversion made next on any thread `t` in either
+direction: the history splits as `h = q ++ r` where less than one second passes in `r`, and the
+conversion uses the zone demanded for the value TZ had after `q`.  (Model assumptions as everywhere in
+this file: atomic steps, a clock that does not go backwards; the hash is injective on the TZ values of
+the history.) -/
+theorem honoured_within_last_second (W : World) (e0 : EnvVal) (k0 : Nat) (h : List Step)
+    (hinj : InjOn W (valuesOf e0 h)) (t : Nat) (localDir : Bool) :
+    ∃ q r, h = q ++ r ∧ elapsed r < ONE_SECOND ∧
+      zoneOfStep (step W (exec W (init e0 k0) h) (.convert t localDir)) =
+        some (zoneFor W (env_var (envAfter e0 q))) :=
+  honoured_within_last_second' W e0 k0 h hinj t localDir
+
+/-- **A change of TZ is honoured by EVERY conversion made at least one second later** — whatever
+happens in between, further changes of TZ included: if the history is `a ++ [chg] ++ b` and at least
+one second passes in `b`, the zone used is the one demanded for the value TZ had at some point `c` at
+or after `chg` (and less than one second back): never the value from before `chg`. -/
+theorem honoured_every_change (W : World) (e0 : EnvVal) (k0 : Nat) (a b : List Step) (chg : Step)
+    (hwait : ONE_SECOND ≤ elapsed b)
+    (hinj : InjOn W (valuesOf e0 (a ++ chg :: b))) (t : Nat) (localDir : Bool) :
+    ∃ c r, b = c ++ r ∧ elapsed r < ONE_SECOND ∧
+      zoneOfStep (step W (exec W (init e0 k0) (a ++ chg :: b)) (.convert t localDir)) =
+        some (zoneFor W (env_var (envAfter e0 (a ++ chg :: c)))) := by
+  obtain ⟨q, r, e, hr, hz⟩ := honoured_within_last_second W e0 k0 (a ++ chg :: b) hinj t localDir
+  obtain ⟨c, hq, hb⟩ := split_after_change a b q r chg e (by omega)
+  exact ⟨c, r, hb, hr, by rw [hz, hq]⟩
+
+/-- the special case in which TZ does not change again after `chg` (the former main theorem): the
+conversion uses the zone demanded for the current value of TZ -/
 theorem honoured_after_1s (W : World) (e0 : EnvVal) (k0 : Nat) (p1 p2 : List Step) (chg : Step)
-    (hchg : isChange chg = true) (hno : ∀ x ∈ p2, isChange x = false)
+    (hno : ∀ x ∈ p2, isChange x = false)
     (hwait : ONE_SECOND ≤ elapsed p2)
     (hinj : InjOn W (valuesOf e0 (p1 ++ chg :: p2))) (t : Nat) (localDir : Bool) :
     zoneOfStep (step W (exec W (init e0 k0) (p1 ++ chg :: p2)) (.convert t localDir)) =
-      some (zoneFor W (env_var (envAfter e0 (p1 ++ chg :: p2)))) :=
-  honoured_after_1s' W e0 k0 p1 p2 chg hchg hno hwait hinj t localDir
+      some (zoneFor W (env_var (envAfter e0 (p1 ++ chg :: p2)))) := by
+  obtain ⟨c, r, hb, _, hz⟩ := honoured_every_change W e0 k0 p1 p2 chg hwait hinj t localDir
+  rw [hz]
+  have e1 : p1 ++ chg :: p2 = (p1 ++ chg :: c) ++ r := by rw [hb]; simp
+  have e2 : envAfter e0 ((p1 ++ chg :: c) ++ r) = envAfter e0 (p1 ++ chg :: c) := by
+    rw [envAfter_append (a := p1 ++ chg :: c)]
+    exact envAfter_nochange _ r (fun x hx => hno x (by rw [hb]; exact List.mem_append_right _ hx))
+  rw [e1, e2]
 
 /-- while TZ is never changed, every conversion uses the zone demanded for it (no assumption) -/
 theorem honoured_without_change (W : World) (e0 : EnvVal) (k0 : Nat) (h : List Step)
@@ -83,6 +114,15 @@ theorem cache_invariant (W : World) (e0 : EnvVal) (k0 : Nat) (h : List Step)
     (hinj : InjOn W (valuesOf e0 h)) :
     Inv W (valuesOf e0 h) (exec W (init e0 k0) h) (ghostRun W (init e0 k0) 0 h) :=
   exec_ok W _ hinj h _ 0 (init_ok W e0 k0 h) (stepIn_valuesOf e0 h)
+
+/-- the invariant behind `honoured_within_last_second`, for any reachable state: environment and
+clock are those of the history, and every cache records the point `q` of the history at which it was
+last checked: `last_checked` is the clock after `q`, source and zone are those of TZ's value after `q` -/
+theorem cache_records_history (W : World) (e0 : EnvVal) (k0 : Nat) (h : List Step)
+    (hinj : InjOn W (valuesOf e0 h)) :
+    HistInv W e0 k0 h (exec W (init e0 k0) h) := by
+  have := exec_at W e0 k0 h [] (init e0 k0) (by simpa using hinj) (init_at W e0 k0)
+  simpa using this
 
 /-- A change of TZ is honoured immediately on a new thread: after thread `t` starts, whatever else
 happens (changes of TZ, waiting, conversions on other threads, other threads starting), its first
@@ -155,6 +195,25 @@ theorem window_is_sharp :
 
 example : InjOn (W0 sumHash) (valuesOf .unset [.setTZ [47, 97], .convert 0 false, .setTZ [98], .advance 1000000000]) := by
   decide
+
+/-- histories with changes inside the last second.  First (the audit's example): set A; convert;
++0.6 s; set B; +0.6 s; set C; +0.5 s; convert — 1.1 s after B: `honoured_every_change` with `chg` =
+set B says the zone is that of B or of C, never A; the cache is 1.7 s old, is re-read, and gives C.
+Second: a conversion 0.4 s after B on a cache filled 0.5 s before B still answers A (0.9 s old:
+`honoured_within_last_second` with `q` = the history up to the first conversion); 0.6 s later it has
+moved on to the value set in between -/
+example : InjOn (W0 sumHash) (valuesOf .unset
+      [.setTZ [47, 97], .convert 0 false, .advance 600000000, .setTZ [98], .advance 600000000,
+       .setTZ [88, 89, 90, 45, 51], .advance 500000000]) ∧
+    run (W0 sumHash) (init .unset 100)
+      [.setTZ [47, 97], .convert 0 false, .advance 600000000, .setTZ [98], .advance 600000000,
+       .setTZ [88, 89, 90, 45, 51], .advance 500000000, .convert 0 false] =
+      [(.tzif [47, 97] 1, .created), (.rule [88, 89, 90, 45, 51] 3, .reloaded)] ∧
+    run (W0 sumHash) (init .unset 100)
+      [.setTZ [47, 97], .convert 0 false, .advance 500000000, .setTZ [98], .advance 400000000,
+       .convert 0 false, .setTZ [88, 89, 90, 45, 51], .advance 600000000, .convert 0 true] =
+      [(.tzif [47, 97] 1, .created), (.tzif [47, 97] 1, .reused),
+       (.rule [88, 89, 90, 45, 51] 3, .reloaded)] := by decide
 
 /-- the assumption on the hash cannot be dropped: with a hash that collides on the two values, the
 change is never noticed (2 s and 3 s later the old zone is still used) -/
